@@ -30,8 +30,18 @@ def setup():
         import eudoxia  # noqa: F401
     finally:
         sys.stdout = real_stdout
-    logging.disable(logging.CRITICAL)
-    logging.getLogger().handlers[:] = []
+    if os.environ.get("VERIF_LOGGING") == "default":
+        # the package's own default: root logger at DEBUG with a stream handler (what `eudoxia run` and every plain
+        # script get).  Everything is formatted and emitted - into /dev/null.  Code guarded by
+        # logger.isEnabledFor(DEBUG) runs in this mode and only in this mode.
+        for h_ in logging.getLogger().handlers:
+            try:
+                h_.setStream(devnull)
+            except Exception:
+                pass
+    else:
+        logging.disable(logging.CRITICAL)
+        logging.getLogger().handlers[:] = []
     here = os.path.abspath(eudoxia.__file__)
     assert here.startswith(REPO + os.sep), f"eudoxia imported from {here}, expected under {REPO}"
     _done = True
